@@ -225,7 +225,13 @@ def shape(ctx, expr, args=None, ret=None, hoistable=True, byref=False, turbofish
         shapes += [(w * 0.4, 'closure'), (w * 0.2, 'move'), (w * 0.4 if ret is not None and is_val(ret) else 0, 'ret')]
     if turbofish is not None and ctx.p.get('turbofish', 0.1) > 0:
         shapes.append((10 * ctx.p.get('turbofish', 0.1), 'turbofish'))
+    if ctx.p.get('opnoise', 0.0) > 0:
+        shapes.append((10 * ctx.p.get('opnoise', 0.0), 'opnoise'))
     s = ctx.pick_w(shapes)
+    if s == 'opnoise':
+        # a complete operand whose prefix is complete too, followed by an operator look-alike
+        op = ctx.p.get('opnoise_op') or ctx.rng.choice(SH_OPS)
+        return Operand('w::sh(%s) %s 0' % (expr, op))
     if s == 'turbofish':
         return Operand(turbofish)
     if s == 'call':
@@ -237,11 +243,19 @@ def shape(ctx, expr, args=None, ret=None, hoistable=True, byref=False, turbofish
     names = ['x', 'y']
     params = ', '.join('%s: %s' % (names[i], rs(a)) for i, a in enumerate(args))
     call = '(%s)(%s)' % (expr, ', '.join(names[:len(args)]))
+    if ctx.chance(ctx.p.get('guard_noise', 0.25)):
+        # operator look-alikes at the top level of a NOT YET complete operand
+        call = 'if %s { %s } else { unreachable!() }' % (ctx.rng.choice(GUARD_NOISE), call)
     if s == 'closure':
         return Operand('|%s| %s' % (params, call))
     if s == 'move':
         return Operand('move |%s| %s' % (params, call))
     return Operand('|%s| -> %s { %s }' % (params, rs(ret), call))
+
+
+SH_OPS = ['<<', '>>', '|', '^', '&', '+', '-', '*', '/', '%']
+GUARD_NOISE = ['1u32 << 1 > 0', '8u32 >> 1 > 0', '1 < 2', '2 > 1', 'true && !false', 'true || false', '3u8 ^ 1 != 0', '1u32 << 1 >> 1 < 2',
+               '-1i32 < 0', 'matches!(1u8, 0..=2)', '!(1 > 2)', '1u8 & 1 == 1']
 
 
 def new_cap(ctx):
@@ -1616,7 +1630,7 @@ WRAP_NAMES = ['map_wrap', 'and_then_wrap', 'filter_wrap', 'inspect_wrap', 'filte
 
 PROFILES = {
     'ops': dict(branches=(1, 2), depth=(1, 2), acts=(2, 6), wrappers=0.25, wrap_depth=1, captures=0.1, names=0.0, handler=0.1,
-                closures=0.3, turbofish=0.15, sync_prefix=0.5, streams=0.3),
+                closures=0.3, turbofish=0.15, sync_prefix=0.5, streams=0.3, opnoise=0.06),
     'wrap': dict(branches=(1, 2), depth=(1, 2), acts=(1, 4), wrappers=3.0, wrap_depth=3, captures=0.2, names=0.0, handler=0.1,
                  closures=0.15, turbofish=0.05, sync_prefix=0.6, streams=0.15),
     'steps': dict(branches=(2, 5), depth=(1, 4), acts=(0, 2), wrappers=0.3, wrap_depth=1, captures=0.3, names=0.45, handler=0.3,
@@ -1870,6 +1884,33 @@ def slice_programs(slice_name, tier, master_seed, base_id):
                 if op in ('fold', 'try_fold'):
                     # second operand of fold / try_fold captured as well
                     add(p, fam, 'sk-cap2-' + op, require='}, {')
+    if slice_name == 'ops':
+        # skeleton: every operator look-alike once after a complete operand prefix, outside and inside a wrapper
+        for fam in [('sync', False), ('sync', True)]:
+            for op in SH_OPS:
+                for inside in (False, True):
+                    p = dict(prof)
+                    p['opnoise'] = 0.6
+                    p['opnoise_op'] = op
+                    p['captures'] = 0.0
+                    p['closures'] = 0.0
+                    p['turbofish'] = 0.0
+                    p['wrappers'] = 1.5 if inside else 0.0
+                    pat = ') %s 0' % op
+
+                    def req(text, pat=pat, inside=inside):
+                        if not inside:
+                            return pat in text
+                        j = text.find('>>>')
+                        while j >= 0:
+                            rest = text[j + 3:]
+                            end = rest.find('<<<')
+                            seg = rest if end < 0 else rest[:end]
+                            if pat in seg:
+                                return True
+                            j = text.find('>>>', j + 1)
+                        return False
+                    add(p, fam, 'sk-noise-%s-%s' % (op, inside), require=req)
     if slice_name == 'wrap':
         for fam in fams:
             for op in WRAP_NAMES:
